@@ -111,14 +111,32 @@ func (v *variablesMappingVisitor) LeaveDocument(operation, definition *ast.Docum
 }
 
 func (v *variablesMappingVisitor) EnterArgument(ref int) {
-	if v.operation.Arguments[ref].Value.Kind != ast.ValueKindVariable {
-		return
-	}
 	if len(v.Ancestors) == 0 || v.Ancestors[0].Kind != ast.NodeKindOperationDefinition {
 		return
 	}
+	v.collectVariables(v.operation.Arguments[ref].Value)
+}
 
-	varValueRef := v.operation.Arguments[ref].Value.Ref
+// collectVariables records the variable that is the value, and the variables nested in a list or
+// input object value (they remain in directive arguments, which are not extracted): every variable
+// of the operation has to take part in the renaming, otherwise a canonical name can be handed out
+// that a user variable still carries.
+func (v *variablesMappingVisitor) collectVariables(value ast.Value) {
+	switch value.Kind {
+	case ast.ValueKindVariable:
+		v.collectVariable(value.Ref)
+	case ast.ValueKindList:
+		for _, i := range v.operation.ListValues[value.Ref].Refs {
+			v.collectVariables(v.operation.Value(i))
+		}
+	case ast.ValueKindObject:
+		for _, i := range v.operation.ObjectValues[value.Ref].Refs {
+			v.collectVariables(v.operation.ObjectFieldValue(i))
+		}
+	}
+}
+
+func (v *variablesMappingVisitor) collectVariable(varValueRef int) {
 	varNameBytes := v.operation.VariableValueNameBytes(varValueRef)
 
 	variableDefinitionRef, exists := v.operation.VariableDefinitionByNameAndOperation(v.operationRef, varNameBytes)
